@@ -128,7 +128,8 @@ impl Scenario for ScheduleScenario {
                     script.push(MOp::AddPoll {
                         assoc: k,
                         classes: m,
-                        period_ms: *rng.pick(&[100u64, 500, 1000, 3000, 7000]),
+                        // (now and then a poll that only ever runs when demanded: the largest period there is)
+                        period_ms: if rng.chance(1, 10) { u64::MAX } else { *rng.pick(&[100u64, 500, 1000, 3000, 7000]) },
                     });
                     *npolls += 1;
                 }
@@ -329,7 +330,7 @@ pub fn analyse(
                             assoc: *addr,
                             classes: *classes,
                             period: *period,
-                            not_before: *t + *period,
+                            not_before: t.saturating_add(*period),
                             demanded_at: None,
                             demand_during_run: false,
                             removed: false,
@@ -523,7 +524,7 @@ pub fn analyse(
                             // ("not starved": the property sets no deadline; a second on an idle channel is far beyond any
                             // scheduling slack)
                             if polls[i].known
-                                && start_t > due + 1000
+                                && start_t > due.saturating_add(1000)
                                 && has_idle_gap(&hist[..pos], due, start_t, 1000, case.latency.0)
                             {
                                 fail!(
@@ -581,7 +582,7 @@ pub fn analyse(
                                 .find(|p| p.running && p.assoc == *assoc && p.classes == mask)
                             {
                                 p.running = false;
-                                p.not_before = *t + p.period;
+                                p.not_before = t.saturating_add(p.period);
                                 p.known = true;
                             }
                         } else if tasks[r].class == Class::Unknown {
@@ -751,7 +752,7 @@ pub fn analyse(
             if !p.removed
                 && !p.running
                 && p.known
-                && due + 1000 < run.end_ms
+                && due.saturating_add(1000) < run.end_ms
                 && has_idle_gap(&hist, due, run.end_ms, 1000, case.latency.0)
             {
                 fail!(
